@@ -34,7 +34,8 @@ def run(ck):
         '(R2) in every impl, constrain_as_public_input constrains exactly the cells as_public_input returns (it calls it and feeds every returned cell to a '
         'constrain call, or delegates, or reads the same fields), and assign_as_public_input is assign + constrain or a delegation; '
         '(R3) counting discipline: Layouter::constrain_instance is called only by the two NativeChip primitives, each bumps its own row counter exactly once per '
-        'call, nb_public_inputs reads that counter, MidnightCircuit::synthesize stores it after the relation ran, setup_vk copies it into the key. '
+        'call, nb_public_inputs reads that counter, MidnightCircuit::synthesize stores it after the relation ran, setup_vk copies it into the key, and verify / batch_verify compare the count exactly; (R4) exposure functions keep their canonicalisation / '
+        'delegation calls on every path. '
         'Value-level equality / injectivity of each encoding is not decided.')
     fns = [f for f in w.all_fns() if norm((f.get('impl') or {}).get('trait') or '') == PII]
     impls = {}
